@@ -56,13 +56,13 @@ def run(ck):
         inst = "%s/%s" % (fname, form)
         with ck.guard("C15.R1", inst):
             fi, paths = _call(ck, fname, lambda it: ([cx(it, "x", shapes[0]), cx(it, "y", shapes[1])], {}))
-            p = single(paths, inst)
-            if shape_err_verdict(ck, "C15.R1", inst, paths):
-                re, im = bil(f)
-                _pair_check(ck, "C15.R1", inst, fi.site(), p.value.term, re, im)
-                want_shape = None
-                ck.check(p.value.shape is not None and p.value.shape[0] == 2, "C15.R1", inst + ":shape", fi.site(),
-                         "result shape %s has no leading complex axis" % (p.value.shape,))
+            for p in returning(paths, inst):
+                if shape_err_verdict(ck, "C15.R1", inst, paths):
+                    re, im = bil(f)
+                    _pair_check(ck, "C15.R1", inst, fi.site(), p.value.term, re, im)
+                    want_shape = None
+                    ck.check(p.value.shape is not None and p.value.shape[0] == 2, "C15.R1", inst + ":shape", fi.site(),
+                             "result shape %s has no leading complex axis" % (p.value.shape,))
     # einsum with flags
     for spec, shapes in (("ij,jk->ik", [("n", "m"), ("m", "p")]), ("ib,ibg->bg", [("e", "B"), ("e", "B", "g")])):
         for rp, ip in ((True, True), (True, False), (False, True), (False, False)):
@@ -70,38 +70,38 @@ def run(ck):
             with ck.guard("C15.R1", inst):
                 fi, paths = _call(ck, "einsum", lambda it: (
                     [VConst(spec), cx(it, "x", shapes[0]), cx(it, "y", shapes[1])], {"real_part": VConst(rp), "imag_part": VConst(ip)}))
-                p = single(paths, inst)
-                if not shape_err_verdict(ck, "C15.R1", inst, paths):
-                    continue
-                f = lambda a, b: T.app("einsum2", spec, a, b)  # noqa: E731
-                re, im = bil(f)
-                v = p.value
-                if rp and ip:
-                    _pair_check(ck, "C15.R1", inst, fi.site(), v.term, re, im)
-                elif rp or ip:
-                    w = re if rp else im
-                    d = lin_diff(getattr(v, "term", None), w)
-                    ck.check(diff_verdict(d), "C15.R1", inst, fi.site(), "requested part: " + diff_msg(d))
-                else:
-                    ck.check(isinstance(v, VConst) and v.value is None, "C15.R1", inst, fi.site(), "einsum with no part requested must return None")
+                for p in returning(paths, inst):
+                    if not shape_err_verdict(ck, "C15.R1", inst, paths):
+                        continue
+                    f = lambda a, b: T.app("einsum2", spec, a, b)  # noqa: E731
+                    re, im = bil(f)
+                    v = p.value
+                    if rp and ip:
+                        _pair_check(ck, "C15.R1", inst, fi.site(), v.term, re, im)
+                    elif rp or ip:
+                        w = re if rp else im
+                        d = lin_diff(getattr(v, "term", None), w)
+                        ck.check(diff_verdict(d), "C15.R1", inst, fi.site(), "requested part: " + diff_msg(d))
+                    else:
+                        ck.check(isinstance(v, VConst) and v.value is None, "C15.R1", inst, fi.site(), "einsum with no part requested must return None")
     # inner / outer product: conjugation conventions
     for form, shp, f in (("vectors", ("n",), lambda a, b: T.app("matmul", a, b)), ("scalars", (), lambda a, b: a * b)):
         inst = "inner_prod/" + form
         with ck.guard("C15.R1", inst):
             fi, paths = _call(ck, "inner_prod", lambda it: ([cx(it, "x", shp), cx(it, "y", shp)], {}))
-            p = single(paths, inst)
-            if shape_err_verdict(ck, "C15.R1", inst, paths):
-                # <x|y> = conj(x).y : re = xr.yr + xi.yi ; im = xr.yi - xi.yr
-                _pair_check(ck, "C15.R1", inst, fi.site(), p.value.term, f(xr, yr) + f(xi, yi), f(xr, yi) - f(xi, yr))
+            for p in returning(paths, inst):
+                if shape_err_verdict(ck, "C15.R1", inst, paths):
+                    # <x|y> = conj(x).y : re = xr.yr + xi.yi ; im = xr.yi - xi.yr
+                    _pair_check(ck, "C15.R1", inst, fi.site(), p.value.term, f(xr, yr) + f(xi, yi), f(xr, yi) - f(xi, yr))
     inst = "outer_prod"
     with ck.guard("C15.R1", inst):
         fi, paths = _call(ck, "outer_prod", lambda it: ([cx(it, "x", ("n",)), cx(it, "y", ("m",))], {}))
-        p = single(paths, inst)
-        if shape_err_verdict(ck, "C15.R1", inst, paths):
-            g = lambda a, b: T.app("ger", a, b)  # noqa: E731
-            # |x><y| = x conj(y)^T : re = xr yr + xi yi ; im = xi yr - xr yi
-            _pair_check(ck, "C15.R1", inst, fi.site(), p.value.term, g(xr, yr) + g(xi, yi), g(xi, yr) - g(xr, yi))
-            ck.check(p.value.shape == (2, "n", "m"), "C15.R1", inst + ":shape", fi.site(), "outer product shape %s, expected (2, n, m)" % (p.value.shape,))
+        for p in returning(paths, inst):
+            if shape_err_verdict(ck, "C15.R1", inst, paths):
+                g = lambda a, b: T.app("ger", a, b)  # noqa: E731
+                # |x><y| = x conj(y)^T : re = xr yr + xi yi ; im = xi yr - xr yi
+                _pair_check(ck, "C15.R1", inst, fi.site(), p.value.term, g(xr, yr) + g(xi, yi), g(xi, yr) - g(xr, yi))
+                ck.check(p.value.shape == (2, "n", "m"), "C15.R1", inst + ":shape", fi.site(), "outer product shape %s, expected (2, n, m)" % (p.value.shape,))
     # conj / conjugate
     for fname, shp, want in (
         ("conj", ("B",), lambda: (xr, -xi)),
@@ -112,61 +112,61 @@ def run(ck):
         inst = "%s/rank%d" % (fname, len(shp) + 1)
         with ck.guard("C15.R1", inst):
             fi, paths = _call(ck, fname, lambda it: ([cx(it, "x", shp)], {}))
-            p = single(paths, inst)
-            if shape_err_verdict(ck, "C15.R1", inst, paths):
-                re, im = want()
-                _pair_check(ck, "C15.R1", inst, fi.site(), p.value.term, re, im)
-                if fname == "conjugate" and len(shp) >= 2:
-                    ws = (2, shp[1], shp[0]) + tuple(shp[2:])
-                    ck.check(p.value.shape == ws, "C15.R1", inst + ":shape", fi.site(), "conjugate transpose shape %s, expected %s" % (p.value.shape, ws))
+            for p in returning(paths, inst):
+                if shape_err_verdict(ck, "C15.R1", inst, paths):
+                    re, im = want()
+                    _pair_check(ck, "C15.R1", inst, fi.site(), p.value.term, re, im)
+                    if fname == "conjugate" and len(shp) >= 2:
+                        ws = (2, shp[1], shp[0]) + tuple(shp[2:])
+                        ck.check(p.value.shape == ws, "C15.R1", inst + ":shape", fi.site(), "conjugate transpose shape %s, expected %s" % (p.value.shape, ws))
 
     # ------------------------------------------------------------ R2 slot order
     with ck.guard("C15.R2", "make_complex"):
         fi, paths = _call(ck, "make_complex", lambda it: ([tens(it, "a", ("B",)), tens(it, "b", ("B",))], {}))
-        p = single(paths, "make_complex")
-        _pair_check(ck, "C15.R2", "make_complex(x,y)", fi.site(), p.value.term, S("a"), S("b"))
-        ck.check(p.value.shape == (2, "B"), "C15.R2", "make_complex:shape", fi.site(), "shape %s" % (p.value.shape,))
-        fi, paths = _call(ck, "make_complex", lambda it: ([tens(it, "a", ("B",))], {}))
-        p = single(paths, "make_complex")
-        _pair_check(ck, "C15.R2", "make_complex(x)", fi.site(), p.value.term, S("a"), T.ZERO)
-        fi, paths = _call(ck, "make_complex", lambda it: ([tens(it, "A", ("B",), kind="ndarray")], {}))
-        p = single(paths, "make_complex")
-        _pair_check(ck, "C15.R2", "make_complex(ndarray)", fi.site(), p.value.term, T.app("npreal", S("A")), T.app("npimag", S("A")))
+        for p in returning(paths, "make_complex"):
+            _pair_check(ck, "C15.R2", "make_complex(x,y)", fi.site(), p.value.term, S("a"), S("b"))
+            ck.check(p.value.shape == (2, "B"), "C15.R2", "make_complex:shape", fi.site(), "shape %s" % (p.value.shape,))
+            fi, paths = _call(ck, "make_complex", lambda it: ([tens(it, "a", ("B",))], {}))
+            p = single(paths, "make_complex")
+            _pair_check(ck, "C15.R2", "make_complex(x)", fi.site(), p.value.term, S("a"), T.ZERO)
+            fi, paths = _call(ck, "make_complex", lambda it: ([tens(it, "A", ("B",), kind="ndarray")], {}))
+            p = single(paths, "make_complex")
+            _pair_check(ck, "C15.R2", "make_complex(ndarray)", fi.site(), p.value.term, T.app("npreal", S("A")), T.app("npimag", S("A")))
     for fname, k in (("real", 0), ("imag", 1)):
         with ck.guard("C15.R2", fname):
             fi, paths = _call(ck, fname, lambda it: ([cx(it, "x", ("B",))], {}))
-            p = single(paths, fname)
-            w = xr if k == 0 else xi
-            ck.check(p.value.term == w, "C15.R2", fname, fi.site(), "%s(x) returns %r, expected component %d" % (fname, p.value.term, k))
-            ck.check(p.value.obj.origin == "param:x", "C15.R2", fname + ":view", fi.site(), "%s(x) must be a view of x (buffers are written through it)" % fname)
+            for p in returning(paths, fname):
+                w = xr if k == 0 else xi
+                ck.check(p.value.term == w, "C15.R2", fname, fi.site(), "%s(x) returns %r, expected component %d" % (fname, p.value.term, k))
+                ck.check(p.value.obj.origin == "param:x", "C15.R2", fname + ":view", fi.site(), "%s(x) must be a view of x (buffers are written through it)" % fname)
     with ck.guard("C15.R2", "numpy"):
         fi, paths = _call(ck, "numpy", lambda it: ([cx(it, "x", ("B",))], {}))
-        p = single(paths, "numpy")
-        d = lin_diff(p.value.term, xr + T.sym("lit:1j") * xi)
-        ck.check(diff_verdict(d), "C15.R2", "numpy", fi.site(), "numpy(x) vs real + 1j*imag: " + diff_msg(d))
+        for p in returning(paths, "numpy"):
+            d = lin_diff(p.value.term, xr + T.sym("lit:1j") * xi)
+            ck.check(diff_verdict(d), "C15.R2", "numpy", fi.site(), "numpy(x) vs real + 1j*imag: " + diff_msg(d))
     with ck.guard("C15.R2", "I"):
         def th(it):
             return it.module_const(prog.modules[MOD], "I", prog.modules[MOD].assigns["I"])
         if "I" not in prog.modules[MOD].assigns:
             raise AnalysisError("anchor vanished: cplx.I")
-        p = single(paths_of(prog, th), "I")
-        _pair_check(ck, "C15.R2", "I=(0,1)", "qucumber/utils/cplx.py:<module>:I", p.value.term, T.ZERO, T.ONE)
+        for p in returning(paths_of(prog, th), "I"):
+            _pair_check(ck, "C15.R2", "I=(0,1)", "qucumber/utils/cplx.py:<module>:I", p.value.term, T.ZERO, T.ONE)
     with ck.guard("C15.R2", "sigmoid"):
         fi, paths = _call(ck, "sigmoid", lambda it: ([tens(it, "a", ("B",)), tens(it, "b", ("B",))], {}))
-        p = single(paths, "sigmoid")
-        z = S("a") + T.sym("lit:1j") * S("b")
-        out = T.exp(z) / (1 + T.exp(z))
-        _pair_check(ck, "C15.R2", "sigmoid:packing", fi.site(), p.value.term, T.app("npreal", out), T.app("npimag", out))
+        for p in returning(paths, "sigmoid"):
+            z = S("a") + T.sym("lit:1j") * S("b")
+            out = T.exp(z) / (1 + T.exp(z))
+            _pair_check(ck, "C15.R2", "sigmoid:packing", fi.site(), p.value.term, T.app("npreal", out), T.app("npimag", out))
 
     # ------------------------------------------------------------ R3 Kronecker index order
     with ck.guard("C15.R3", "kronecker_prod"):
         fi, paths = _call(ck, "kronecker_prod", lambda it: ([cx(it, "x", ("a", "b")), cx(it, "y", ("c", "d"))], {}))
-        p = single(paths, "kronecker_prod")
-        if shape_err_verdict(ck, "C15.R3", "kronecker_prod", paths):
-            ws = (2, ("flat", ("a", "c")), ("flat", ("b", "d")))
-            ck.check(p.value.shape == ws, "C15.R3", "kronecker_prod:layout", fi.site(),
-                     "result layout %s, expected (2, a*c, b*d) with x-major row and column order" % (p.value.shape,), shape=str(p.value.shape))
-            ck.check("xr" in p.value.term.syms() and "yi" in p.value.term.syms(), "C15.R3", "kronecker_prod:deps", fi.site(), "result does not depend on both operands")
+        for p in returning(paths, "kronecker_prod"):
+            if shape_err_verdict(ck, "C15.R3", "kronecker_prod", paths):
+                ws = (2, ("flat", ("a", "c")), ("flat", ("b", "d")))
+                ck.check(p.value.shape == ws, "C15.R3", "kronecker_prod:layout", fi.site(),
+                         "result layout %s, expected (2, a*c, b*d) with x-major row and column order" % (p.value.shape,), shape=str(p.value.shape))
+                ck.check("xr" in p.value.term.syms() and "yi" in p.value.term.syms(), "C15.R3", "kronecker_prod:deps", fi.site(), "result does not depend on both operands")
 
     # ------------------------------------------------------------ R4 guards before compute
     with ck.guard("C15.R4", "scalar_mult/out-alias"):
@@ -185,11 +185,11 @@ def run(ck):
         def build2(it):
             return [cx(it, "x", ("B",)), cx(it, "y", ("B",))], {"out": cx(it, "o", ("B",))}
         fi, paths = _call(ck, "scalar_mult", build2)
-        p = single(paths, "scalar_mult/out=buffer")
-        ok = p.outcome == "return" and isinstance(p.value, VTens) and p.value.obj.origin == "param:o"
-        ck.check(ok, "C15.R4", "scalar_mult/out=buffer returned", fi.site(), "the out buffer is not the returned object")
-        if ok:
-            _pair_check(ck, "C15.R4", "scalar_mult/out=buffer value", fi.site(), p.value.term, xr * yr - xi * yi, xr * yi + xi * yr)
+        for p in returning(paths, "scalar_mult/out=buffer"):
+            ok = p.outcome == "return" and isinstance(p.value, VTens) and p.value.obj.origin == "param:o"
+            ck.check(ok, "C15.R4", "scalar_mult/out=buffer returned", fi.site(), "the out buffer is not the returned object")
+            if ok:
+                _pair_check(ck, "C15.R4", "scalar_mult/out=buffer value", fi.site(), p.value.term, xr * yr - xi * yi, xr * yi + xi * yr)
     bad = [
         ("inner_prod", [("n", "m"), ("n", "m")]), ("inner_prod", [("n",), ()]),
         ("outer_prod", [("n", "m"), ("n",)]), ("outer_prod", [(), ()]),
@@ -221,33 +221,33 @@ def run(ck):
         with ck.guard("C15.R5", fname):
             names = ["x", "y"]
             fi, paths = _call(ck, fname, lambda it: ([cx(it, names[i], s) for i, s in enumerate(shapes)], {}))
-            p = single(paths, fname)
-            if not shape_err_verdict(ck, "C15.R5", fname, paths):
-                continue
-            if kind == "real":
-                got, w = p.value.term, want()
-                if got == w:
-                    ck.ok("C15.R5", fname, fi.site(), got=got)
-                elif T.ratfun_equal(got, w):
-                    ck.ok("C15.R5", fname, fi.site(), got=got)
-                else:
-                    d = lin_diff(got, w)
-                    ck.check(diff_verdict(d), "C15.R5", fname, fi.site(), diff_msg(d), got=got, want=w)
-            else:
-                comps = T.as_stack0(p.value.term)
-                if comps is None:
-                    ck.undecided("C15.R5", fname, fi.site(), "result is not a pair: %r" % (p.value.term,))
+            for p in returning(paths, fname):
+                if not shape_err_verdict(ck, "C15.R5", fname, paths):
                     continue
-                for nm, g, w in zip(("re", "im"), comps, want()):
-                    if g == w or T.ratfun_equal(g, w):
-                        ck.ok("C15.R5", "%s:%s" % (fname, nm), fi.site(), got=g)
-                    elif g.syms() == w.syms() and (T.ratfun_equal(g, -w)):
-                        ck.violation("C15.R5", "%s:%s" % (fname, nm), fi.site(), "%s part has the wrong sign" % nm, got=g, want=w)
-                    elif g.syms() != w.syms():
-                        ck.violation("C15.R5", "%s:%s" % (fname, nm), fi.site(), "%s part depends on %s, expected %s" % (nm, sorted(g.syms()), sorted(w.syms())))
+                if kind == "real":
+                    got, w = p.value.term, want()
+                    if got == w:
+                        ck.ok("C15.R5", fname, fi.site(), got=got)
+                    elif T.ratfun_equal(got, w):
+                        ck.ok("C15.R5", fname, fi.site(), got=got)
                     else:
-                        ck.violation("C15.R5", "%s:%s" % (fname, nm), fi.site(),
-                                     "%s part is not the expected rational function (polynomial identity test, complete for this class)" % nm, got=g, want=w)
+                        d = lin_diff(got, w)
+                        ck.check(diff_verdict(d), "C15.R5", fname, fi.site(), diff_msg(d), got=got, want=w)
+                else:
+                    comps = T.as_stack0(p.value.term)
+                    if comps is None:
+                        ck.undecided("C15.R5", fname, fi.site(), "result is not a pair: %r" % (p.value.term,))
+                        continue
+                    for nm, g, w in zip(("re", "im"), comps, want()):
+                        if g == w or T.ratfun_equal(g, w):
+                            ck.ok("C15.R5", "%s:%s" % (fname, nm), fi.site(), got=g)
+                        elif g.syms() == w.syms() and (T.ratfun_equal(g, -w)):
+                            ck.violation("C15.R5", "%s:%s" % (fname, nm), fi.site(), "%s part has the wrong sign" % nm, got=g, want=w)
+                        elif g.syms() != w.syms():
+                            ck.violation("C15.R5", "%s:%s" % (fname, nm), fi.site(), "%s part depends on %s, expected %s" % (nm, sorted(g.syms()), sorted(w.syms())))
+                        else:
+                            ck.violation("C15.R5", "%s:%s" % (fname, nm), fi.site(),
+                                         "%s part is not the expected rational function (polynomial identity test, complete for this class)" % nm, got=g, want=w)
     ck.require_min("C15.R1", 40)
     ck.require_min("C15.R2", 12)
     ck.require_min("C15.R3", 2)
